@@ -17,7 +17,7 @@ RULE = (
     'pair the set-theoretic rule of the statement (reference predicate, recursive for nested '
     'Concurrent children) is compared with isinstance, issubclass and a real try/except; '
     'type(exc) must only depend on the set of child types, equal specialisations must be the '
-    'identical class, flattened() must keep the leaves and their order, also when the same failure object or nested group occurs more than once in the tree. non-trivial = pair with '
+    'identical class - also when made in another thread -, flattened() must keep the leaves and their order, also when the same failure object or nested group occurs more than once in the tree. non-trivial = pair with '
     '>= 2 distinct child types or a nested child; distinct = (raised types, handler)'
 )
 LEVEL_TEXT = (
@@ -190,6 +190,35 @@ def run_case(case):
         violations.append({'mechanism': 'c17:specialisation-not-identical',
                            'msg': 'type(%s) is %r, Concurrent[...] of the same types is %r' % (
                                raised_text, type(exc), expected_type)})
+    # ---- ... and not on the thread in which the failure or the handler class was made ----
+    import threading
+    made_elsewhere = []
+    spec = ('C', tuple(sorted(set(raised), key=describe)), False)
+    worker = threading.Thread(target=lambda: made_elsewhere.extend(
+        [build_instance(('C', raised, False)), build_type(spec)]))
+    worker.start()
+    worker.join()
+    stats['type_identity_checks'] += 2
+    stats['cross_thread_checks'] = stats.get('cross_thread_checks', 0) + 1
+    if len(made_elsewhere) != 2:
+        violations.append({'mechanism': 'c17:specialisation-not-identical',
+                           'msg': 'building %s in another thread failed' % raised_text})
+    else:
+        foreign_exc, foreign_type = made_elsewhere
+        if type(foreign_exc) is not type(exc) or foreign_type is not expected_type:
+            violations.append({'mechanism': 'c17:specialisation-not-identical',
+                               'msg': 'type(%s) / the equal specialisation made in another '
+                                      'thread is a different class (%r vs %r)' % (
+                                          raised_text, type(foreign_exc), type(exc))})
+        try:
+            raise foreign_exc
+        except expected_type:
+            pass
+        except BaseException:  # noqa: B902
+            violations.append({'mechanism': 'c17:except',
+                               'msg': '%s raised by another thread is not caught by `except` '
+                                      'with its own exact specialisation' % raised_text})
+        foreign_exc.__traceback__ = None
     # ---- flattened keeps leaves and order ----
     flat = exc.flattened()
     want_leaves = []
